@@ -620,20 +620,34 @@
 		i32.add
 		local.set $block_size
 
-		;; 如果已经超出内存最大空间, 则先扩容
-		;; if heap_ptr+block_size >= heap_top { grow }
-		global.get $__heap_ptr
-		local.get $block_size
-		i32.add
-		global.get $__heap_top
-		i32.ge_s
+		;; 地址空间只有 4GB: 过大的请求不可能满足 (同时保证后面的无符号计算不会回绕)
+		local.get $size
+		i32.const -131072 ;; 0xFFFE0000
+		i32.ge_u
 		if
-			;; $pages = ($block_size+WASM_PAGE_SIZE-1) / WASM_PAGE_SIZE)
+			i32.const 0
+			return
+		end
+
+		;; 如果剩余空间不够, 则先扩容 (地址是无符号数; 刚好放得下不需要扩容)
+		;; if block_size > heap_top-heap_ptr { grow }
+		local.get $block_size
+		global.get $__heap_top
+		global.get $__heap_ptr
+		i32.sub
+		i32.gt_u
+		if
+			;; 只需要为不够的部分扩容
+			;; $pages = ($block_size-(heap_top-heap_ptr)+WASM_PAGE_SIZE-1) / WASM_PAGE_SIZE)
 			local.get $block_size
+			global.get $__heap_top
+			global.get $__heap_ptr
+			i32.sub
+			i32.sub
 			i32.const 65535 ;; WASM_PAGE_SIZE-1
 			i32.add
 			i32.const 65536 ;; WASM_PAGE_SIZE
-			i32.div_s
+			i32.div_u
 			local.set $pages
 
 			;; if memory.grow(pages) < 0 { return nil }
